@@ -10,6 +10,7 @@ import (
 	"regexp"
 	"sort"
 	"strings"
+	"sync/atomic"
 
 	"github.com/ipld/go-storethehash/store"
 	"github.com/ipld/go-storethehash/store/index"
@@ -134,6 +135,7 @@ func errClass(err error) string {
 // runSeq executes the case against the real store and the map model. The
 // returned directory is removed unless KeepDir is set.
 func runSeq(c SeqCase, o seqOpts) (st SeqStats, v *Violation) {
+	currentSeqCase.Store(&c)
 	r := &seqRunner{c: c, o: o, model: map[string][]byte{}, everFlushed: map[string]bool{}}
 	r.stats.GCKinds = map[string]bool{}
 	r.dir = newScratch("seq")
@@ -151,10 +153,7 @@ func runSeq(c SeqCase, o seqOpts) (st SeqStats, v *Violation) {
 	defer func() {
 		if r.s != nil {
 			// Best effort: the verdict is already decided.
-			func() {
-				defer func() { recover() }()
-				r.s.Close()
-			}()
+			closeQuietly(r.s)
 		}
 		if !o.KeepDir {
 			os.RemoveAll(r.dir)
@@ -867,3 +866,6 @@ func (r *seqRunner) doMismatch(i int, op Op) *Violation {
 }
 
 func (st SeqStats) removedFlushedSeen() bool { return st.SupersededFlushed }
+
+// currentSeqCase is the sequential case being evaluated (for the hang watchdog).
+var currentSeqCase atomic.Pointer[SeqCase]
